@@ -17,7 +17,14 @@ Numerical support / falsifier (on the implementation, independent oracles):
     is homogeneous of degree 1 in Q, so a zero or mis-scaled Qd for a tiny Q is a violation);
   * composition over random partitions of dt into 1..8 sub-steps (transitions multiply, noise
     accumulates through the later transitions, covariance propagation independent of the partition);
-  * inputs unmodified.
+  * inputs unmodified; integer-typed F (int64) and integer dt with a fractional Q give the float result;
+  * the anchor filters._compute_error_propagation_matrices (assembly of the joint INS + sensor dynamics, noise
+    input and intensities, and the call): for random EstimationModel pairs (every enable mask, bias walk on
+    both sensors with different intensities, noise, scale/misalignment with readings), random pva and
+    time_delta, the returned (Phi, Qd) against an own continuous model (F, Qc) written from the models'
+    PUBLIC parameters (bias_sd, noise, bias_walk, scale_misal_sd; not from G, q, v), (a) discretised by
+    the implementation's own compute_process_matrices -- entry by entry relative to sqrt(Qd_ii Qd_jj) at 1e-9
+    plus one rounding unit -- and (b) by Gauss-Legendre quadrature of the definition with scipy expm;
 Rounding scale: scipy's expm (Pade 13, scaling and squaring) has forward error up to about
 500 * eps * (1 + |X|_1) * |exp(X)|_1 on the block matrix X (measured against the exact oracle; the
 Pade denominator cancels for |X| close to 4.25, e.g. expm([[4, .2], [0, -4]])[0, 0] is off by 2300 ulp);
@@ -38,7 +45,9 @@ RULE = ("translator: matrix-granularity trace of kalman.compute_process_matrices
         "inputs per run; numeric support: F stable / unstable / nilpotent / zero / skew / random with "
         "|F| dt log-uniform 1e-4..20, n in 1..24, Q PSD of every rank incl. 0 with overall scale log-uniform "
         "1e-20..1e6, dt in [0, 10] incl. 0, partitions of dt into 1..8 sub-steps, Q rescaled by 2^k (linearity); "
-        "all comparisons homogeneous in Q; a case is distinct by (n, kind, rank Q, dt class, #sub-steps, index)")
+        "all comparisons homogeneous in Q; integer-typed F / dt; every 5th case is an assembly case of "
+        "filters._compute_error_propagation_matrices (random sensor-model enable masks and magnitudes, pva, readings, "
+        "time_delta in 0.01..10 s); a case is distinct by (n, kind, rank Q, dt class, #sub-steps, index)")
 
 EPS = 2.0 ** -52
 MARGIN = 2.0e5
